@@ -30,6 +30,9 @@
    use each feature and on the same sources with the white space deleted by hand. *)
 From PV Require Import Model.Exec Model.Api Spec.SpecComposeExamples Spec.SpecTrim.
 From PV Require Import Tie.C15.
+From PV Require Import Lib.Bytes Lib.GoInt Model.Lexer Model.Api.
+From PV Require Import Spec.SpecLex Spec.SpecRender Spec.SpecTrim Spec.SpecDash.
+From PV Require Import Tie.C15e.
 Open Scope N_scope.
 
 Theorem C15_html_trim_spec :
@@ -192,3 +195,183 @@ Example C15_example_hypotheses :
     exec_node (world_senv w_plain) [] 1 st (NHtml 7 [10; 32; 120; 32; 9] false true true true) =
       xok [32; 120] st.
 Proof. eexists. split; [reflexivity|]. split; vm_compute; reflexivity. Qed.
+
+(* ================= end to end: a dash marker equals deleting the whitespace by hand ================= *)
+(* Property C15, end to end - a "-" marker equals deleting the white space by hand.
+
+   "A "-" next to a delimiter ({{-, -}}) removes all white space of the adjacent literal text on
+   that side and nothing else; the result equals rendering the source from which that white
+   space was deleted by hand, and no other byte of the output changes."
+
+   Props/C15.v states this node by node.  Here it is stated on SOURCE TEXTS, through the lexer,
+   the parser and the executor, for the documents of Spec/SpecDash.v: any number of items, an
+   item being a literal text or a variable {{ name }} whose delimiters may each carry a "-".
+   [doc_src d] is the source of d with its markers; [doc_strip d] is d with, for every "{{-",
+   the trailing white space of the text before it deleted, for every "-}}" the leading white
+   space of the text after it, and all markers cleared.  [doc_ok d]: names are letters and no
+   reserved word, two texts are never adjacent, a text opens no delimiter - also not together
+   with the "{" that follows it, before or after the deletion (see finding 1 below).
+
+   What each theorem contributes:
+   - C15_dash_end_to_end_partial (main): for every world (all loaders, BOTH BLOCK OPTIONS IN ANY
+     SETTING, bans, globals), every context that passes the key check and holds no macro, and
+     every well-formed document of up to 59000 items:
+         api_render_string w (doc_src d) ctx = api_render_string w (doc_src (doc_strip d)) ctx
+     - same output bytes, same outcome (also when a variable fails: same error, same bytes
+     written before it).  "partial" because of the hypothesis macro_free: for a context that
+     holds a macro the equation is false IN THE MODEL at the fuel boundary (finding 2 below:
+     the marked document has more nodes, so its variables run on less fuel); pongo2 has no
+     fuel.  The block options need no hypothesis: they only act next to {% %} tags.
+   - C15e_render_shape: what both sides are equal to.  There is a function vt from names to
+     outputs (it depends on the world and the context only, not on the position, not on the
+     markers) such that every well-formed document renders to [doc_out vt]: its texts, each
+     stripped on exactly the sides where a marker stands, and the outputs of its variables, in
+     order.  So a marker changes nothing but the white space of the adjacent text.
+   - C15e_hand_deletion_pure: on [doc_out] the marker and the deletion by hand coincide, for
+     every document and every vt; a well-formed document stays well-formed.
+   The stages, each for every well-formed document of any length:
+   - C15e_lex: the lexer produces [doc_toks]: one text token per non-empty text, and per
+     variable "{{" (flag = written "{{-"), the identifier, "}}" (flag = written "-}}"), with
+     their positions (by the composition theorem C06_lex_compose; C15e_var_fragment: a
+     variable is a self-contained code fragment in the sense of Spec/SpecLex.v).
+   - C15e_parse / C15e_compile: the document parser turns these tokens into [doc_nodes]: a
+     text node per non-empty text with trimL = the variable before it was written "-}}",
+     trimR = the variable after it is written "{{-", no block flag; a variable node per
+     variable; compile_src returns the template with exactly these nodes.
+   - C15e_exec_nodes: node level, ARBITRARY expressions between the braces, any state, any
+     fuel, any context: the marked node list and the node list stripped by hand execute alike
+     (here every text, also an empty one, is a node, so both lists have the same length; by
+     C15_dash_left / C15_dash_right along the list).
+   - C15e_exec_doc_nodes: the parser's node lists of d and of doc_strip d (which may be
+     shorter: a text that becomes empty is no node) execute alike in every state whose top
+     frame holds no macro, on any two sufficient amounts of fuel.
+   Examples: a document with every combination of markers, a text that vanishes, a stray "{",
+   a string that autoescape rewrites and an unknown name meets all hypotheses; its source,
+   its source stripped by hand, and both renderings (computed).  Then the two findings. *)
+Theorem C15_dash_end_to_end_partial : forall (w : world) (ctx : list (str * cval)) (d : doc),
+  doc_ok d = true -> N.of_nat (length d) <= 59000 ->
+  keys_ok (ctx_update (w_globals w) ctx) = true ->
+  macro_free (ctx_update (w_globals w) ctx) = true ->
+  api_render_string w (doc_src d) ctx = api_render_string w (doc_src (doc_strip d)) ctx.
+Proof. exact tie_dash_end_to_end. Qed.
+Print Assumptions C15_dash_end_to_end_partial.
+
+Theorem C15e_render_shape : forall (w : world) (ctx : list (str * cval)),
+  keys_ok (ctx_update (w_globals w) ctx) = true ->
+  macro_free (ctx_update (w_globals w) ctx) = true ->
+  exists vt : str -> res str, forall d : doc,
+    doc_ok d = true -> N.of_nat (length d) <= 59000 ->
+    api_render_string w (doc_src d) ctx = obs_of_out (doc_out vt false d).
+Proof. exact tie_render_shape. Qed.
+Print Assumptions C15e_render_shape.
+
+Theorem C15e_hand_deletion_pure :
+  (forall (vt : str -> res str) (d : doc), doc_out vt false d = doc_out vt false (doc_strip d)) /\
+  (forall d : doc, doc_ok d = true -> doc_ok (doc_strip d) = true).
+Proof. exact (conj tie_doc_out_strip tie_doc_ok_strip). Qed.
+Print Assumptions C15e_hand_deletion_pure.
+
+(* the hypothesis on the merged context follows from the same on globals and context *)
+Theorem C15e_macro_free_merged : forall (globals ctx : list (str * cval)),
+  macro_free globals = true -> macro_free ctx = true -> macro_free (ctx_update globals ctx) = true.
+Proof. exact tie_macro_free_merged. Qed.
+Print Assumptions C15e_macro_free_merged.
+
+(* ---------- the stages ---------- *)
+Theorem C15e_lex : forall d : doc,
+  doc_ok d = true -> lex (doc_src d) = LexOk (doc_toks d (1, 1)%Z).
+Proof. exact tie_lex_doc. Qed.
+Print Assumptions C15e_lex.
+
+Theorem C15e_var_fragment : forall (n : str) (dl dr : bool),
+  name_ok n = true -> code_ok (var_src n dl dr) (var_toks n dl dr).
+Proof. exact tie_var_code_ok. Qed.
+Print Assumptions C15e_var_fragment.
+
+Theorem C15e_parse : forall (se : senv) (d : doc) (p : Z * Z) (F : nat) (st : pst),
+  doc_ok d = true -> (length d + 2 <= F)%nat ->
+  parse_doc se F st (annotate None (doc_toks d p)) = Ok (doc_nodes (t_id (fst st)) false d, st).
+Proof. exact tie_parse_doc_top. Qed.
+Print Assumptions C15e_parse.
+
+Theorem C15e_compile : forall (se : senv) (d : doc) (F : nat) (name : str) (isstr : bool) (g : gstate),
+  doc_ok d = true -> (length d + 2 <= F)%nat ->
+  compile_src se (S F) name isstr (doc_src d) g =
+  Ok (Tpl (g_nid g) name isstr (doc_nodes (g_nid g) false d) [] [] None (se_trim se) (se_lstrip se),
+      mkG (g_nid g + 1) (g_log g)).
+Proof. exact tie_compile_doc. Qed.
+Print Assumptions C15e_compile.
+
+Theorem C15e_exec_nodes : forall (se : senv) (globals : list (str * cval)) (owner : N)
+                                 (d : list (item expr)) (prev : bool) (f : nat) (st : mstate),
+  exec_nodes se globals f st (item_nodes owner prev d) =
+  exec_nodes se globals f st (item_nodes owner false (strip_from prev d)).
+Proof. exact tie_exec_item_nodes_strip. Qed.
+Print Assumptions C15e_exec_nodes.
+
+Theorem C15e_exec_doc_nodes : forall (se : senv) (globals : list (str * cval)) (owner : N) (d : doc)
+                                     (F F' : nat) (st : mstate) (fr : frame),
+  doc_ok d = true -> top_frame st = Ok fr ->
+  macro_free (f_priv fr) = true -> macro_free (f_pub fr) = true ->
+  (length d + 6 <= F)%nat -> (length d + 6 <= F')%nat ->
+  exec_nodes se globals F st (doc_nodes owner false d) =
+  exec_nodes se globals F' st (doc_nodes owner false (doc_strip d)).
+Proof. exact tie_exec_doc_nodes. Qed.
+Print Assumptions C15e_exec_doc_nodes.
+
+(* ---------- non-vacuity ---------- *)
+(* c15e_world: TrimBlocks and LStripBlocks on, a global yy = 42; c15e_ctx: x = "<hi>";
+   c15e_doc:  a \n {{- x -}} \t {{- yy -}} b{ {{ z -}} c\n
+   stripped by hand:  a{{ x }}{{ yy }}b{ {{ z }}c\n  ; both render to  a&lt;hi&gt;42b{ c\n *)
+Example C15e_witness :
+  doc_ok c15e_doc = true /\ N.of_nat (length c15e_doc) <= 59000 /\
+  keys_ok (ctx_update (w_globals c15e_world) c15e_ctx) = true /\
+  macro_free (ctx_update (w_globals c15e_world) c15e_ctx) = true /\
+  doc_src c15e_doc =
+    [97; 32; 10; 32; 123; 123; 45; 32; 120; 32; 45; 125; 125; 32; 9; 32; 123; 123; 45; 32; 121; 121;
+     32; 45; 125; 125; 32; 98; 123; 32; 123; 123; 32; 122; 32; 45; 125; 125; 32; 99; 10] /\
+  doc_src (doc_strip c15e_doc) =
+    [97; 123; 123; 32; 120; 32; 125; 125; 123; 123; 32; 121; 121; 32; 125; 125; 98; 123; 32; 123;
+     123; 32; 122; 32; 125; 125; 99; 10] /\
+  api_render_string c15e_world (doc_src c15e_doc) c15e_ctx =
+    OOk [97; 38; 108; 116; 59; 104; 105; 38; 103; 116; 59; 52; 50; 98; 123; 32; 99; 10] /\
+  api_render_string c15e_world (doc_src (doc_strip c15e_doc)) c15e_ctx =
+    OOk [97; 38; 108; 116; 59; 104; 105; 38; 103; 116; 59; 52; 50; 98; 123; 32; 99; 10].
+Proof. exact tie_c15e_witness. Qed.
+
+(* the same document stage by stage (computed): its tokens, its nodes with their flags *)
+Example C15e_witness_stages :
+  lex (doc_src c15e_doc) = LexOk (doc_toks c15e_doc (1, 1)%Z) /\
+  parse_doc (world_senv c15e_world) 20 (mkT 1 [] true [] [] None, g0)
+            (annotate None (doc_toks c15e_doc (1, 1)%Z)) =
+    Ok (doc_nodes 1 false c15e_doc, (mkT 1 [] true [] [] None, g0)) /\
+  doc_nodes 1 false c15e_doc =
+    [ NHtml 1 [97; 32; 10; 32] false true false false; NVar (var_expr [120]);
+      NHtml 1 [32; 9; 32] true true false false; NVar (var_expr [121; 121]);
+      NHtml 1 [32; 98; 123; 32] true false false false; NVar (var_expr [122]);
+      NHtml 1 [32; 99; 10] true false false false ].
+Proof. exact tie_c15e_witness_stages. Qed.
+
+(* ---------- findings: what the two side conditions exclude ---------- *)
+(* 1.  a{ {{- x }}  renders to  a{&lt;hi&gt;  ; with the blank deleted by hand it reads
+   a{{{ x }}  and does not compile: the deletion has created a delimiter.  doc_ok says no. *)
+Example C15e_brace_counterexample :
+  doc_ok c15e_bad_doc = false /\
+  doc_src c15e_bad_doc = [97; 123; 32; 123; 123; 45; 32; 120; 32; 125; 125] /\
+  doc_src (doc_strip c15e_bad_doc) = [97; 123; 123; 123; 32; 120; 32; 125; 125] /\
+  api_render_string c15e_world (doc_src c15e_bad_doc) c15e_ctx =
+    OOk [97; 123; 38; 108; 116; 59; 104; 105; 38; 103; 116; 59] /\
+  api_render_string c15e_world (doc_src (doc_strip c15e_bad_doc)) c15e_ctx = OCompileErr 2.
+Proof. exact tie_c15e_brace_counterexample. Qed.
+
+(* 2.  " {{- x }}a{{ m }}" in a context where m is a macro whose body is nested 29995 deep:
+   the model runs out of fuel on the marked source and not on the stripped one (it has one
+   node less).  An artefact of the model's fuel; the reason for macro_free above. *)
+Example C15e_macro_fuel_artefact :
+  doc_ok c15e_macro_doc = true /\
+  keys_ok (ctx_update [] c15e_macro_ctx) = true /\
+  macro_free (ctx_update [] c15e_macro_ctx) = false /\
+  api_render_string (mkWorld [] false false [] [] [] [] []) (doc_src c15e_macro_doc) c15e_macro_ctx = OFuel /\
+  api_render_string (mkWorld [] false false [] [] [] [] []) (doc_src (doc_strip c15e_macro_doc)) c15e_macro_ctx
+    = OOk [97].
+Proof. exact tie_c15e_macro_fuel_artefact. Qed.
